@@ -1022,6 +1022,15 @@ func (f *Frame) callByContract(fn *ssa.Function, con *Contract, args [][]*Term, 
 	sig := fn.Signature
 	for i := 0; i < sig.Results().Len(); i++ {
 		v := u.freshValue("r!"+fn.Name(), sig.Results().At(i).Type())
+		if con.Flags["freshresult"] {
+			// the contract promises newly allocated results: a pointer / slice result designates
+			// an object of its own (concrete identity, arbitrary content), offset 0
+			switch sig.Results().At(i).Type().Underlying().(type) {
+			case *types.Pointer, *types.Slice:
+				v[0] = f.allocObj()
+				v[1] = tb.BV(64, 0)
+			}
+		}
 		resVals = append(resVals, v)
 		flat = append(flat, v...)
 	}
